@@ -327,9 +327,7 @@ func init() {
 		}
 		return out
 	}
-	H["(*encoding/base64.Encoding).EncodeToString"] = func(fr *frame, a []value) value {
-		return base64.RawURLEncoding.EncodeToString(goBytes(a[1]))
-	}
+
 	H["math/big.NewInt"] = func(fr *frame, a []value) value {
 		var cell value = structure{}
 		p := &cell
@@ -739,4 +737,8 @@ var modelledAllow = map[string]bool{
 	"(go.riyazali.net/sqlite.ErrorCode).String": true,
 	"(time.Duration).Nanoseconds": true,
 	"(*sync.Mutex).TryLock":       false,
+}
+
+func base64EncodeConcrete(b []value) value {
+	return base64.RawURLEncoding.EncodeToString(goBytes(b))
 }
